@@ -30,10 +30,11 @@ RULE = ('forms: matrices from tables.rand_spec (dims 1..4, all value kinds incl.
         'unsorted), scipy csr/csc (raw arrays with stored zeros and unsorted indices)/coo (shuffled, explicit zeros, '
         'duplicates)/lil/dok/bsr, int dtype}; ctor: the same forms with ids duplicated anywhere on an axis, one id too '
         'few / too many, metadata too short / too long / all-empty of the wrong size / holding a non-mapping (truthy or '
-        'falsy), under the default profile or with 1-2 kinds set to ignore/warn; adj: 1-8 records over <= 3x3 ids with '
+        'falsy), under the default profile (a quarter after an errstate block left by an exception) or with 1-2 kinds set to ignore/warn; adj: 1-8 records over <= 3x3 ids with '
         'repeated pairs, zero and negative values, with / without the header, with comment / blank / short lines, as '
         'list / text / file; uc: 1-10 H/S/L/N/C/comment/blank records over <= 3 seeds and <= 3 samples whose ids contain '
-        'underscores, labels with descriptions, queries without underscore, through parse_uc (file / list) and _from_uc '
+        'underscores, labels with descriptions, queries without underscore, through parse_uc (file / list), _from_uc and the real '
+        '`biom from-uc` click command in process (files on disk, result read back) '
         'with and without a representative-set fasta (complete, incomplete, colliding); '
         'non-trivial = forms case with >= 2 distinct variants and a matrix that is neither 1x1 nor all-zero, a ctor case '
         'that is malformed, an adj/uc case with a repeated pair; distinct by case hash')
@@ -330,6 +331,48 @@ def render_fasta(pairs):
     return out
 
 
+class _Marker(Exception):
+    pass
+
+
+def _run_cli_from_uc(uc_lines, fasta_lines):
+    """`biom from-uc -i in.uc -o out.biom [--rep-set-fp rep.fna]` through the real click group, in process.
+    The group's close callback closes fd 1: the standard descriptors are saved and restored around the call."""
+    import os
+    import shutil
+    import tempfile
+    from biom import load_table
+    from biom.cli import cli
+    d = tempfile.mkdtemp(prefix='biomv-c17-')
+    try:
+        inp, out, fa = os.path.join(d, 'in.uc'), os.path.join(d, 'out.biom'), os.path.join(d, 'rep.fna')
+        with open(inp, 'w', encoding='utf-8') as f:
+            f.write('\n'.join(uc_lines) + '\n')
+        args = ['from-uc', '-i', inp, '-o', out]
+        if fasta_lines is not None:
+            with open(fa, 'w', encoding='utf-8') as f:
+                f.write('\n'.join(fasta_lines) + '\n')
+            args += ['--rep-set-fp', fa]
+        saved = [os.dup(k) for k in (0, 1, 2)]
+        try:
+            try:
+                cli.main(args=args, standalone_mode=False)
+                err = None
+            except BaseException as e:      # click may raise SystemExit / Abort
+                err = e
+        finally:
+            for k, fd in enumerate(saved):
+                os.dup2(fd, k)
+                os.close(fd)
+        if err is not None:
+            if isinstance(err, Exception):
+                raise err
+            raise RuntimeError('command left with %r' % (err,))
+        return load_table(out)
+    finally:
+        shutil.rmtree(d, ignore_errors=True)
+
+
 def run_impl(c):
     reset_profile()
     try:
@@ -356,6 +399,13 @@ def _run_impl(c):
         eq = [[int(a is not None and b is not None and bool(a == b) and not bool(a != b)) for b in tabs] for a in tabs]
         return ['forms', obs, eq]
     if k == 'ctor':
+        if c.get('after_errstate'):
+            # an errstate block that was left by an exception: the rejection must not depend on that history
+            try:
+                with E.errstate(**dict(c['after_errstate'])):
+                    raise _Marker()
+            except _Marker:
+                pass
         if c.get('profile'):
             E.seterr(**dict(c['profile']))
         import warnings
@@ -381,6 +431,8 @@ def _run_impl(c):
             return _uc(lambda: parse_uc([x + '\n' for x in lines]))
         if via == 'parse_file':
             return _uc(lambda: parse_uc(io.StringIO('\n'.join(lines) + '\n')))
+        if via == 'cli':
+            return _uc(lambda: _run_cli_from_uc(lines, None if c.get('fasta') is None else render_fasta(c['fasta'])))
         fasta = None if c.get('fasta') is None else io.StringIO('\n'.join(render_fasta(c['fasta'])) + '\n')
         return _uc(lambda: _from_uc(io.StringIO('\n'.join(lines) + '\n'), fasta))
     raise ValueError(k)
@@ -434,7 +486,7 @@ def encode(c):
         return [1, [], ls]
     kinds = {'H': 0, 'S': 1, 'L': 2}
     recs = [[kinds.get(kk, 3), enc_str(q), enc_str(t)] for kk, q, t, _ in c['recs']]
-    fa = c.get('fasta') if c['via'] == 'from_uc' else None
+    fa = c.get('fasta') if c['via'] in ('from_uc', 'cli') else None
     return [2, recs, [] if fa is None else [[[enc_str(old), enc_str(new)] for new, old in fa]]]
 
 
@@ -541,8 +593,12 @@ def gen_ctor(rng):
     if rng.random() < 0.2:
         kinds = rng.sample(['empty', 'obssize', 'sampsize', 'obsdup', 'sampdup', 'obsmdsize', 'sampmdsize'], rng.randint(1, 2))
         profile = [[kk, rng.choice(['ignore', 'ignore', 'warn', 'raise'])] for kk in kinds]
+    after = None
+    if profile is None and rng.random() < 0.25:
+        kinds = rng.sample(['obssize', 'sampsize', 'obsdup', 'sampdup', 'obsmdsize', 'sampmdsize'], rng.randint(1, 3))
+        after = [['all', 'ignore']] if rng.random() < 0.3 else [[kk, 'ignore'] for kk in kinds]
     return {'kind': 'ctor', 'variant': v, 'inp': inp, 'oids': oids, 'sids': sids, 'omd': omd, 'smd': smd,
-            'type': spec['type'], 'mal': mal, 'profile': profile}
+            'type': spec['type'], 'mal': mal, 'profile': profile, 'after_errstate': after}
 
 
 def gen_adj(rng):
@@ -600,9 +656,9 @@ def gen_uc(rng):
             recs.append(['#', 'comment %d' % seq[0], '', False])
         else:
             recs.append(['', '', '', False])
-    via = rng.choice(['parse_list', 'parse_file', 'from_uc', 'from_uc'])
+    via = rng.choice(['parse_list', 'parse_file', 'from_uc', 'from_uc', 'cli', 'cli'])
     fasta = None
-    if via == 'from_uc' and rng.random() < 0.7:
+    if via in ('from_uc', 'cli') and rng.random() < 0.7:
         seedset = []
         for s in seeds:
             if s not in seedset:
@@ -745,7 +801,7 @@ def oracle(c, obs):
         if obs[0] == 'ok':
             fails.append('uc input with a query label without underscore produced a table')
         return fails
-    fa = c.get('fasta') if c['via'] == 'from_uc' else None
+    fa = c.get('fasta') if c['via'] in ('from_uc', 'cli') else None
     if fa is not None:
         mp = {}
         for new, old in fa:
@@ -791,6 +847,8 @@ def classify(c):
         tags += ['malformed:' + m.split(':')[0] for m in c['mal']]
         if c.get('profile'):
             tags.append('profile:changed')
+        if c.get('after_errstate'):
+            tags.append('history:errstate-left-by-exception')
         why = is_malformed(c)
         tags.append('domain:outside' if why is None else ('domain:malformed' if why else 'domain:wellformed'))
     elif k == 'adj':
@@ -801,7 +859,7 @@ def classify(c):
     else:
         tags.append('via:' + c['via'])
         tags += ['rec:' + (r[0] or 'blank') for r in c['recs']]
-        if c.get('fasta') is not None and c['via'] == 'from_uc':
+        if c.get('fasta') is not None and c['via'] in ('from_uc', 'cli'):
             tags.append('fasta')
     return tags
 
